@@ -65,7 +65,8 @@ def run(ctx):
             # any grammatical name: plain ones, names of helpers of the generated code (all of which the evaluator
             # handles as experiment names on the unchanged tree), a declared field's own name
             new_name = rnd.choice(["renamed_" + prog.id, "x", "_", "Exp2", "partial", "deterministic_choice", "str", "map", "kwargs",
-                                   "choose_experiment_variant", "ExperimentConditionalFailedError", "self", "print",
+                                   "choose_experiment_variant", "ExperimentConditionalFailedError", "self", "print", "recompile", "run_experiment", "_checksum",
+                                   "__call__", "__class__", "__dict__",
                                    rnd.choice(sorted(set(prog.splitters) | set(prog.identifiers)))])
             renamed = Program(new_name, prog.salt, prog.splitters, prog.cond, prog.n_returns, prog.identifiers)
             perm = list(prog.splitters)
